@@ -66,7 +66,7 @@ Proof.
   { intros _ _. split.
     - intros x Hx. no_followers.
     - (* the two referencing signals sit in different messages *)
-      intros L x y Hx Hy HLx HLy. vm_compute in Hx. vm_compute in Hy.
+      intros _ L x y Hx Hy HLx HLy. vm_compute in Hx. vm_compute in Hy.
       destruct Hx as [Ex|[Ex|[]]]; destruct Hy as [Ey|[Ey|[]]]; subst x y.
       + reflexivity.
       + exfalso. destruct L as [m|u g]; [|no_groups HLx g].
@@ -205,3 +205,38 @@ Lemma reach_example_all : ok_hist_f reach_example_ops /\
   = [[(1%nat, 0, 5); (2%nat, 5, 2); (3%nat, 8, 2)]; [(3%nat, 8, 2)]]
   /\ ~ single_followers (run (firstn 7 reach_example_ops)) 1.
 Proof. exact (conj reach_example_ok reach_example_final). Qed.
+
+(* ---------------------------------------------------------------------------------------------- *)
+(* 4. two signals of one message reference the same enum and the enum SHRINKS (a value index is    *)
+(*    lowered): allowed by the hypotheses (only growth needs them in different layouts); both pull *)
+(*    their followers                                                                              *)
+(* ---------------------------------------------------------------------------------------------- *)
+Definition shrink_shared_ops : list op :=
+  [ONewMsg 2; ONewEnum; OAddValue 0 7; ONewEnumSig 0; ONewEnumSig 0; ONewStd 3;
+   OAppend 0 0; OAppend 0 1; OAppend 0 2;
+   OUpdateIndex 0 1].
+
+Example shrink_shared_ok : ok_hist_f shrink_shared_ops.
+Proof.
+  unfold ok_hist_f, shrink_shared_ops.
+  do 2 hist_step.
+  hist_step.
+  { intros _ _. split; [intros x Hx; vm_compute in Hx; contradiction|intros _ L x y Hx; vm_compute in Hx; contradiction]. }
+  do 3 hist_step.
+  hist_step; [not_attached|]. hist_step; [not_attached|]. hist_step; [not_attached|].
+  hist_step.
+  { intros e Ee _. vm_compute in Ee. inversion Ee; subst e. split.
+    - intros x Hx. no_followers.
+    - intros Hpos. exfalso. vm_compute in Hpos. discriminate. }
+  hist_step.
+Qed.
+
+Example shrink_shared_final :
+  map (fun x => (x, rel (run shrink_shared_ops) x, sz (run shrink_shared_ops) x)) (glay (run shrink_shared_ops) 0)
+  = [(0%nat, 0, 1); (1%nat, 1, 1); (2%nat, 2, 3)].
+Proof. vm_compute. reflexivity. Qed.
+
+Lemma shrink_shared_all : ok_hist_f shrink_shared_ops /\
+  map (fun x => (x, rel (run shrink_shared_ops) x, sz (run shrink_shared_ops) x)) (glay (run shrink_shared_ops) 0)
+  = [(0%nat, 0, 1); (1%nat, 1, 1); (2%nat, 2, 3)].
+Proof. exact (conj shrink_shared_ok shrink_shared_final). Qed.
